@@ -129,9 +129,11 @@ func (x *exec) roundTrip(k *kind, seed uint64) (interface{}, []byte, bool) {
 			"%s (seed %d): the node's encoder rejected a generated well-formed value: %v", k.name, seed, err)
 		return nil, nil, false
 	}
-	r, _, face := x.guard(k, e0)
+	// the honest encoding of small generated values: decoded at face value
+	r := runDecode(k.decode, e0, true)
+	x.judge(k, e0, r)
 	c.Check()
-	if !face || r.panicked || r.err != nil {
+	if r.panicked || r.err != nil {
 		x.violateRaw("C04", "encode-decode-equal", "C04/encoded-value-rejected/"+fam, Step{Op: "sweepone", Kind: k.name, Seed: seed},
 			"%s (seed %d): bytes written by the node's encoder were not accepted by its decoder: %v (panic=%v); bytes %s", k.name, seed, r.err, r.panicked, hexShort(e0, 200))
 		return v0, e0, false
@@ -229,7 +231,7 @@ func (x *exec) programInvariance(k *kind, seed uint64, tx interfaces.Transaction
 		c.Check()
 		if h1 != h0 {
 			ok = false
-			x.violateRaw("C04", "hash-ignores-programs", "C04/tx-hash-depends-on-programs/"+family(k.name), Step{Op: "sweepone", Kind: k.name, Seed: seed},
+			x.violateRaw("C04", "hash-ignores-programs", "C04/tx-hash-depends-on-programs/tx", Step{Op: "sweepone", Kind: k.name, Seed: seed},
 				"%s (seed %d): Hash() changed from %s to %s when the programs were %s", k.name, seed, h0.String(), h1.String(), va.name)
 			continue
 		}
@@ -241,13 +243,13 @@ func (x *exec) programInvariance(k *kind, seed uint64, tx interfaces.Transaction
 		c.Check()
 		if err != nil {
 			ok = false
-			x.violateRaw("C04", "hash-ignores-programs", "C04/tx-with-other-programs-rejected/"+family(k.name), Step{Op: "sweepone", Kind: k.name, Seed: seed},
+			x.violateRaw("C04", "hash-ignores-programs", "C04/tx-with-other-programs-rejected/tx", Step{Op: "sweepone", Kind: k.name, Seed: seed},
 				"%s (seed %d): transaction with programs %s does not decode: %v", k.name, seed, va.name, err)
 			continue
 		}
 		if h2 := t2.(interfaces.Transaction).Hash(); h2 != h0 {
 			ok = false
-			x.violateRaw("C04", "hash-ignores-programs", "C04/tx-hash-depends-on-programs/"+family(k.name), Step{Op: "sweepone", Kind: k.name, Seed: seed},
+			x.violateRaw("C04", "hash-ignores-programs", "C04/tx-hash-depends-on-programs/tx", Step{Op: "sweepone", Kind: k.name, Seed: seed},
 				"%s (seed %d): Hash() of the re-decoded transaction with programs %s is %s, expected %s", k.name, seed, va.name, h2.String(), h0.String())
 		}
 		x.c.Fault("programs-" + va.name)
@@ -261,6 +263,13 @@ func (x *exec) idempotence(k *kind, in []byte, v interface{}) {
 	c := x.c
 	x.setDposPV(k)
 	fam := family(k.name)
+	if k.isTx {
+		// the payload version actually on the wire is part of the corrupted
+		// input, not of the kind: name the transaction type only
+		if parts := strings.Split(k.name, "/"); len(parts) >= 2 {
+			fam = parts[0] + "/" + parts[1]
+		}
+	}
 	st := Step{Op: "raw", Kind: k.name, Hex: hex.EncodeToString(in)}
 	c.Probe("idempotence-checked-on-decoded-corrupted-input")
 	e1, err := safeEncode(k, v)
@@ -295,7 +304,7 @@ func (x *exec) idempotence(k *kind, in []byte, v interface{}) {
 	}
 	c.Check()
 	if p, same := valueDiff(v, r.val, nil); !same {
-		x.violateRaw("C04", "decode-reencode-decode", "C04/value-changes-on-reencode/"+fieldFamily(k, p)+"/"+stripIdx(p), st,
+		x.violateRaw("C04", "decode-reencode-decode", "C04/value-changes-on-reencode/"+fam+"/"+stripIdx(p), st,
 			"%s: field %s differs between the decoded value and decode(encode(it)); input %s", k.name, p, hexShort(in, 200))
 	}
 }
@@ -326,6 +335,20 @@ func (x *exec) sweep(st *Step) {
 		c.Probe("kind:" + k.name)
 		if !ok || v == nil {
 			continue
+		}
+		if tx, isTx := v.(interfaces.Transaction); isTx && len(e) > 2 {
+			// a Byzantine peer labels the payload with a version the payload
+			// package does not define; whatever still decodes must re-encode stably
+			off := 1
+			if tx.Version() >= 9 {
+				off = 2
+			}
+			for _, pv := range []byte{e[off] + 1, 0x7f, 0xff} {
+				m := append([]byte(nil), e...)
+				m[off] = pv
+				c.Fault("undefined-payload-version")
+				x.feed(k, m, true)
+			}
 		}
 		if k.ela {
 			ela = append(ela, sent{k, seed, v, e})
